@@ -1,1 +1,65 @@
-import RosedVerif.Heap.Model
+/-
+C19 — Grapheme strings are pure values: cached boundaries never go stale.
+Layer H (Heap/Model.lean) models gem.String with its shared, lazily filled cache cells; the
+invariant `Inv` says every cell is either empty or holds exactly the boundaries of its value's
+content.  The only non-trivial step (Sub: slice + rebase of cached ends) is discharged by the
+context-freeness of the segmentation at boundaries (`sliceOK`, from Gem/Theory.lean).
+-/
+import RosedVerif.Model.InstAFacts
+namespace RosedVerif.Props
+open RosedVerif RosedVerif.H
+
+/-- the invariant holds initially … -/
+theorem C19_init : Inv Heap.init [] := inv_init
+
+/-- … and is preserved by every operation the property quantifies over, with the result appended to
+the pool (so: in every history) -/
+theorem C19_new (h pool rs) (hi : Inv h pool) : Inv (new rs h).1 ((new rs h).2.1 :: pool) := inv_new h pool rs hi
+theorem C19_add (h pool v w) (hi : Inv h pool) : Inv (add v w h).1 ((add v w h).2.1 :: pool) := inv_add h pool v w hi
+theorem C19_sub (h pool v st en) (hi : Inv h pool) (hv : v ∈ pool) :
+    Inv (sub v st en h).1 ((sub v st en h).2.1 :: pool) := inv_sub sliceOK h pool v st en hi hv
+theorem C19_setCharAt (h pool v i r) (hi : Inv h pool) :
+    match (setCharAt v i r h).2.1 with
+    | .ok res => Inv (setCharAt v i r h).1 (res :: pool)
+    | .error _ => Inv (setCharAt v i r h).1 pool := inv_setCharAt h pool v i r hi
+theorem C19_repeat (h pool v count) (hi : Inv h pool) :
+    Inv («repeat» v count h).1 ((«repeat» v count h).2.1 :: pool) := inv_repeat h pool v count hi
+theorem C19_len (h pool v) (hi : Inv h pool) (hv : v ∈ pool) : Inv (len v h).1 pool := inv_len h pool v hi hv
+theorem C19_charAt (h pool v i) (hi : Inv h pool) (hv : v ∈ pool) : Inv (charAt v i h).1 pool :=
+  inv_charAt h pool v i hi hv
+theorem C19_graphemeIndexes (h pool v) (hi : Inv h pool) (hv : v ∈ pool) :
+    Inv (graphemeIndexes v h).1 pool := inv_graphemeIndexes h pool v hi hv
+theorem C19_runes (h pool v) (hi : Inv h pool) : Inv (runes v h).1 pool := inv_runes h pool v hi
+
+/-- under the invariant every observer answers exactly as a value freshly built from the same content
+would (`cxA.ends = splitRunes` is the fresh segmentation) -/
+theorem C19_len_pure {h pool v} (hi : Inv h pool) (hv : v ∈ zero :: pool) :
+    (len v h).2.1 = gLen cxA v.runes := len_pure cxA cxA_ends hi hv
+theorem C19_boundaries_pure {h pool v} (hi : Inv h pool) (hv : v ∈ zero :: pool) :
+    (graphemeIndexes v h).2.1 = splitRunes v.runes := graphemeIndexes_pure cxA cxA_ends hi hv
+theorem C19_charAt_pure {h pool v} (i : Int) (hi : Inv h pool) (hv : v ∈ zero :: pool) :
+    (charAt v i h).2.1 = gCharAt cxA v.runes i := charAt_pure cxA cxA_ends i hi hv
+theorem C19_sub_pure {h pool v} (st en : Int) (hi : Inv h pool) (hv : v ∈ zero :: pool) :
+    (sub v st en h).2.1.runes = gSub cxA v.runes st en := sub_pure cxA cxA_ends st en hi hv
+theorem C19_setCharAt_pure {h pool v} (i : Int) (r : List Int) (hi : Inv h pool) (hv : v ∈ zero :: pool) :
+    (setCharAt v i r h).2.1.map GStr.runes = gSetCharAt cxA v.runes i r :=
+  setCharAt_pure cxA cxA_ends i r hi hv
+theorem C19_add_pure (v w : GStr) (h : Heap) : (add v w h).2.1.runes = v.runes ++ w.runes := add_pure v w h
+theorem C19_repeat_pure (v : GStr) (count : Int) (h : Heap) :
+    («repeat» v count h).2.1.runes = gRepeat v.runes count := repeat_pure v count h
+
+/-- no operand is altered: a filled cache cell never changes, under ANY call -/
+theorem C19_frame (k : Call) (h : Heap) (c : Nat) (x : List Nat) (hx : h.get c = some x) :
+    (k.run h).1.get c = some x := frame k h c x hx
+
+/-- boundaries always partition the code points — strictly increasing, ending at the length, no
+empty cluster — for arbitrary rune values -/
+theorem C19_partition (s : List Int) : Part (splitRunes s) s.length := part_splitRunes s
+
+/-- the context-freeness that makes `Sub` correct, for strings of any length -/
+theorem C19_slice : SliceOK := sliceOK
+
+/-! non-vacuity: a concrete reachable history keeps the invariant and fills a cache -/
+example : (sub ⟨[0x65, 0x301, 0x61, 0x62], none⟩ 1 3 Heap.init).2.1.runes = [0x61, 0x62] := by decide +kernel
+
+end RosedVerif.Props
